@@ -59,12 +59,17 @@ func TestMain(m *testing.M) {
 
 // ---------- findings ----------
 
-// Open findings (see FINDINGS.md). While a switch is on, the generator
-// excludes exactly that input pattern and counts the exclusions.
+// Findings (see FINDINGS.md). While a switch is on, the generator excludes
+// exactly that input pattern and counts the exclusions. All three are repaired
+// in /repo: the switches are off, the patterns are generated and judged by the
+// ordinary oracle (pad_*: the documented padded string; Regexp.find: the
+// matches without the groups that did not participate, like text.re_find;
+// the twelve wrappers: the documented error VALUE, no run-time error, the
+// script continues), the reproducers are under replays/C19/fixed.
 var openFindings = map[string]bool{
-	"F-C19-1": true, // text.pad_left/pad_right panic when len(s) < pad_len % len(pad_with)
-	"F-C19-2": true, // Regexp.find panics when a capture group does not participate in a match
-	"F-C19-3": true, // hand-written wrappers return the Go error ALSO as the call's error: run-time error instead of an error value
+	"F-C19-1": false, // text.pad_left/pad_right panicked when len(s) < pad_len % len(pad_with); repaired by f9bc074
+	"F-C19-2": false, // Regexp.find panicked when a capture group does not participate in a match; repaired by a2eb38d
+	"F-C19-3": false, // hand-written wrappers returned the Go error ALSO as the call's error: run-time error instead of an error value; repaired by 433f395
 }
 
 var findingText = map[string]string{
@@ -80,7 +85,8 @@ var errLeakRows = map[string]bool{
 	"times.parse_duration": true, "times.parse": true, "times.date": true, "times.in_location": true,
 }
 
-// knownFinding names the open finding whose input pattern the call matches.
+// knownFinding names the finding whose input pattern the call matches (used
+// for the exclusion while a switch is on, and as a histogram class).
 func knownFinding(r *row, args []tengo.Object, want outcome) string {
 	if errLeakRows[r.id()] && want.kind == oErrVal {
 		return "F-C19-3"
